@@ -101,6 +101,9 @@ def phase_shapes():
                           N("L", "PLoad", "M"), phases=ph)
     c["mux-input-inactive"] = S(N("S", "Source"), N("W1", "PSwitch", "S", phases=["a"]), N("W2", "PSwitch", "S"),
                                 N("M", "PMux", ["W1", "W2"], rs_list=True), N("L", "ILoad", "M"), phases=ph)
+    # the mux sleeps while its FIRST input is dead and a later one is live: it must still draw / dissipate its sleep current
+    c["mux-inactive-first-dead"] = S(N("S1", "Source", phases=["a"]), N("S2", "Source"), N("M", "PMux", ["S1", "S2"], rs_list=True, phases=["a"]),
+                                     N("W", "PSwitch", "M"), N("L", "ILoad", "W"), N("L2", "PLoad", "M"), phases=ph)
     c["mux-src-inactive"] = S(N("S1", "Source", phases=["a"]), N("S2", "Source"), N("M", "PMux", ["S1", "S2"]),
                               N("L", "RLoad", "M"), phases=ph)
     c["loads-phased"] = S(N("S", "Source"), N("C", "Converter", "S"), N("L1", "PLoad", "C", phases=["a"]),
